@@ -154,7 +154,8 @@ impl Group {
     pub fn via_helper<T>(&self, f: impl FnOnce(&cw4::Cw4Contract, &cosmwasm_std::QuerierWrapper) -> cosmwasm_std::StdResult<T>) -> Option<T> {
         let router = crate::direct::Router { w: &self.w, smart: |d, e, m| cw4_group::contract::query(d, e, cosmwasm_std::from_json(m)?) };
         let q = cosmwasm_std::QuerierWrapper::new(&router);
-        f(&cw4::Cw4Contract::new(self.w.contract.clone()), &q).ok()
+        // a helper that aborts gives no answer (None), like one that errors
+        std::panic::catch_unwind(std::panic::AssertUnwindSafe(|| f(&cw4::Cw4Contract::new(self.w.contract.clone()), &q).ok())).unwrap_or(None)
     }
 
     pub fn snap(&self) -> Snap {
